@@ -6,6 +6,14 @@ sys.path.insert(0, ROOT)
 TECH = "bounded symbolic execution of the real Python code (CrossHair 0.0.110) with z3 deciding every path; counterexamples replayed concretely"
 
 CHECKS = {
+    "C13": dict(
+        text="(a) error path: for every exception shape the parsers can raise (13-entry pool incl. Lark errors with line None/-1/out of range or no position at all), "
+             "every file of 0..3 lines, both Colang versions, every path of the real loader handler + message formatter ends in ColangParsingError naming the file; a 36-file "
+             "malformed corpus goes through RailsConfig.from_path with the real parsers. (b) layout: every single (thorough: every pair of) blank-line / trailing-space / "
+             "indentation-scale / end-of-line-comment / whitespace-only-line edit of 5 catalogue programs parses to the same flows modulo source positions.",
+        note="The parsers themselves are executed natively on inputs that are concrete per path (Lark's lexer would realise symbolic text): for (b) and the corpus the solver "
+             "only enumerates the finite edit/index space exhaustively. Not claimed: totality of the parsers over arbitrary text, hangs, trailing tabs, comment-only lines.",
+        ref="4/C13"),
     "C19": dict(
         text="(a) cache decorator: for every list of <=4 texts over a 3-text pool (thorough 4-text pool incl. all-distinct), every pre-filled cache subset, cache on/off, "
              "key generators md5/hash/identity and two stores, every path of the real wrapper returns each text's own vector in input order and asks the model only for "
